@@ -933,6 +933,9 @@ def _advance_head_front(state: State, heads: List[FlowHead]) -> List[FlowHead]:
         if flow_state.status == FlowStatus.WAITING:
             flow_state.status = FlowStatus.STARTING
 
+        # True if the flow did not yet reach its first match statement
+        flow_is_starting = flow_state.status == FlowStatus.STARTING
+
         flow_finished = False
         flow_aborted = False
         try:
@@ -1015,7 +1018,12 @@ def _advance_head_front(state: State, heads: List[FlowHead]) -> List[FlowHead]:
             _finish_flow(state, flow_state, head.matching_scores)
             log.debug("Flow finished: %s with last element", head.flow_state_uid)
         elif flow_aborted:
-            _abort_flow(state, flow_state, head.matching_scores)
+            _abort_flow(
+                state,
+                flow_state,
+                head.matching_scores,
+                restart_activated_flow=not flow_is_starting,
+            )
             log.debug("Flow aborted: %s by 'abort' statement", head.flow_state_uid)
 
     # Make sure that all actionable heads still exist in flows, otherwise remove them
@@ -1459,6 +1467,7 @@ def _abort_flow(
     flow_state: FlowState,
     matching_scores: List[float],
     deactivate_flow: bool = False,
+    restart_activated_flow: bool = True,
 ) -> None:
     """Abort a flow instance and all its active child flows and decrement number of references of activated flow."""
 
@@ -1489,7 +1498,9 @@ def _abort_flow(
 
     # An activated flow that fails before it reached its first match statement would fail
     # again right away, so restarting it would end in an infinite loop
-    failed_while_starting = flow_state.status == FlowStatus.STARTING
+    failed_while_starting = (
+        flow_state.status == FlowStatus.STARTING or not restart_activated_flow
+    )
 
     # Abort/deactivate all running child flows
     for child_flow_uid in list(flow_state.child_flow_uids):
